@@ -400,6 +400,7 @@ let op_cert opidx impl toks =
 (* ---- C08 / C20 ---- *)
 let rec cstr_ml (l : n list) = match l with [] -> [] | x :: r -> if int_of_n x = 0 then [] else x :: cstr_ml r
 
+let impl_all_lines : string list list ref = ref []     (* every observation line of the implementation for the current op *)
 let op_realm opidx impl toks =
   match toks with
   | name :: users ->
@@ -409,6 +410,11 @@ let op_realm opidx impl toks =
           match realm_matches nm id with
           | Some b -> b
           | None -> (match rx (rxid (Printf.sprintf "rl:%d" opidx)) id with Some _ -> true | None -> false)) users in
+      (* the expression text addrealm hands to regcomp: the documented construction (Route.realm_regex) *)
+      pr "obs %d realmrx %s\n" opidx (hex_of_bytes (realm_regex nm));
+      (match List.filter (function "realmrx" :: _ -> true | _ -> false) !impl_all_lines with
+       | [ [ "realmrx"; src ] ] -> spec opidx "C08_regex_source" (src = hex_of_bytes (realm_regex nm)) src
+       | _ -> ());
       pr "obs %d realm%s\n" opidx (String.concat "" (List.map (fun b -> if b then " 1" else " 0") res));
       flush_misses opidx;
       (match impl with
@@ -420,7 +426,6 @@ let op_realm opidx impl toks =
        | _ -> ())
   | _ -> ()
 
-let impl_all_lines : string list list ref = ref []     (* every observation line of the implementation for the current op *)
 let op_dynrealm opidx impl toks =
   match toks with
   | _cmd :: u1 :: u2 :: rest ->
